@@ -66,6 +66,33 @@ def tiny_domain(tier):
     return out
 
 
+def represent(e, t):
+    """The operator in the forms callers use: integer dtypes, a sparse row, a
+    sparse row carrying explicitly stored zeros (what `r = a + b; r.data %= 2`
+    leaves behind), a sparse row with unsorted indices."""
+    from scipy.sparse import csr_matrix
+    f = t % 7
+    if f == 0:
+        return e
+    if f == 1:
+        return e.astype(np.int64)
+    if f == 2:
+        return e.astype(np.uint64)
+    if f == 3:
+        return e.astype(np.int8)
+    if f == 4:
+        return csr_matrix(e.reshape(1, -1))
+    if f == 5:
+        mask = np.zeros_like(e)
+        mask[::2] = 1
+        r = (csr_matrix(((e + mask) % 2).reshape(1, -1)) + csr_matrix(mask.reshape(1, -1))).tocsr()
+        r.data %= 2
+        return r
+    nz = np.nonzero(e)[0][::-1]
+    return csr_matrix((np.ones(len(nz), dtype=np.uint8), nz.copy(), np.array([0, len(nz)])),
+                      shape=(1, e.shape[0]))
+
+
 @common.safe
 def export_all(item):
     name, size, dname, kw = item
@@ -83,8 +110,7 @@ def export_all(item):
     for t in range(N):
         e = E[t]
         # the operator in the array types callers use
-        ev = e if t % 4 == 0 else (e.astype(np.int64) if t % 4 == 1 else
-                                   (e.astype(np.uint64) if t % 4 == 2 else e.astype(np.int8)))
+        ev = represent(e, t)
         cs.append(int(bool(code.in_codespace(ev))))
         le.append(bits(code.logical_errors(ev)))
         ile.append(int(bool(code.is_logical_error(ev))))
